@@ -14,6 +14,9 @@ SIG_D3 = "scan-zero-bound-truthiness"
 
 
 # ------------------------------------------------------------------ shapes
+TRUSTED_EXTRA = [
+    "harness/py2v.py (fail-closed translator of Scanner.includes / Scanner.is_last from the source under test into coq/Scan/ScanSrc.v) and coq/Scan/PySem.v (CPython's ==, <, and/or, in, len, max, truthiness on int/None/bool/list as a deep embedding with an absorbing error value)",
+]
 def shape_str(sh):
     k = sh[0]
     if k == "All":
@@ -290,6 +293,14 @@ def run(ctx):
     distinct = len({shape_str(j[0]) for j in kjobs}) + len({(shape_str(j[0]), tuple(j[1])) for j in rjobs})
     nontrivial = len({shape_str(sh) for sh, _, _ in kjobs if sh[0] in ("Range", "Items")}) + \
         len({(shape_str(sh), tuple(bl)) for (sh, bl), r in zip(rjobs, rres) if any(bl) and not all(bl) and r[1]})
+    # the translator tie: Scanner.includes / Scanner.is_last as written in the source of the tree under test, regenerated and
+    # (when the text differs from the checked-in Scan/ScanSrc.v) re-proved equal to the model
+    import srctie
+    tie = srctie.check(ctx)
+    if tie["status"] in ("untranslatable", "unproved") and not ctx.violations:
+        ctx.violation("source-tie", {"what": "the translation of Scanner.includes from csvpath/scanning/scanner.py is no longer proved equal to the model: theorem includes_src_eq (C02_includes_source, C02_source_denotes) "
+                                             "does not check against the source of this tree; the generated cases of this run found no input on which the property fails",
+                                     "theorem": "includes_src_eq (C02_includes_source, C02_source_denotes)", "tie": tie}, no_input=True)
     ctx.coverage.update({
         "evaluations": len(kjobs) + len(rjobs),
         "distinct_nontrivial": nontrivial,
@@ -306,6 +317,7 @@ def run(ctx):
         "shape_kinds": {k: sum(1 for j in kjobs if j[0][0] == k) for k in ("All", "From", "Range", "Items")},
         "with_zero_bound": sum(1 for j in kjobs if has_zero(j[0])),
     })
+    ctx.coverage["source_tie"] = {"status": tie["status"], "detail": tie["detail"][:400]}
 
 
 def denotes_py(sh, l):
